@@ -47,6 +47,17 @@ VARIANTS = {
 }
 
 
+# The launch window documented by the repository itself: Environment._run keeps trying to connect
+# until 5 s after the launch ("if time.time() - start > 5" in the unchanged supp/remote.py).
+LAUNCH_WINDOW = 5.0
+LISTEN_INSIDE = (0.2, 1.0, 2.9, 3.3, 4.0, 4.6, 4.9)     # virtual seconds after launch: must connect
+LISTEN_BEYOND = (5.5, 8.0)                              # beyond the window: the timeout is expected
+for _t in LISTEN_INSIDE + LISTEN_BEYOND:
+    # the launched server refuses connections until virtual time _t after its launch; the fake
+    # sleep advances the virtual clock by exactly the requested amount (sleep_extra 0)
+    VARIANTS['listen-%s' % _t] = {'plan': [('listen-at', _t)], 'sleep_extra': 0.0}
+
+
 class InjectedLaunchFailure(OSError):
     pass
 
@@ -85,8 +96,12 @@ class FakeServer(object):
         self.ordinal = ordinal
         self.addr = addr
         self.plan = plan
-        self.good = plan == 'ok' or (isinstance(plan, tuple) and plan[0] == 'refuse')
-        self.refusals_left = plan[1] if isinstance(plan, tuple) else 0
+        self.listen_delay = plan[1] if isinstance(plan, tuple) and plan[0] == 'listen-at' else None
+        # good = a client that follows the documented start-up handshake gets connected to it
+        self.good = (plan == 'ok' or (isinstance(plan, tuple) and plan[0] == 'refuse')
+                     or (self.listen_delay is not None and self.listen_delay < LAUNCH_WINDOW))
+        self.refusals_left = plan[1] if isinstance(plan, tuple) and plan[0] == 'refuse' else 0
+        self.launched_at = None       # virtual clock at launch
         self.connected = False
         self.ended = False
         self.launcher = launcher
@@ -199,7 +214,7 @@ class World(object):
         launcher = 'starter' if ts is not None and ts.kind == 'starter' else 'run'
         self.launch_log.append({'ordinal': ordinal, 'tid': getattr(ts, 'tid', None), 'by': launcher,
                                 'plan': plan if isinstance(plan, str) else list(plan), 'step': s.steps - 1})
-        if plan in ('popen-raise', 'dead'):
+        if plan in ('popen-raise', 'dead') or (isinstance(plan, tuple) and plan[0] == 'listen-at' and plan[1] >= LAUNCH_WINDOW):
             self.failed_launches += 1
         if plan == 'popen-raise':
             self.injected += 1
@@ -207,6 +222,8 @@ class World(object):
         live = [sv for sv in self.servers if sv.good and not sv.ended]
         addr = args[2] if isinstance(args, (list, tuple)) and len(args) > 2 else 'addr-%d' % ordinal
         sv = FakeServer(ordinal, addr, plan, launcher)
+        s.touch('clock', write=False)
+        sv.launched_at = s.clock
         if live:
             self.double.append({'existing': [x.launcher for x in live], 'new': launcher,
                                 'existing_connected': [x.connected for x in live]})
@@ -221,7 +238,11 @@ class World(object):
             raise FileNotFoundError(2, 'No such file or directory')
         if sv.ended:
             raise ConnectionRefusedError(111, 'Connection refused')
-        if sv.plan == 'dead' or sv.refusals_left > 0:
+        not_yet = False
+        if sv.listen_delay is not None:
+            self.sched.touch('clock', write=False)
+            not_yet = self.sched.clock - sv.launched_at < sv.listen_delay - 1e-9
+        if sv.plan == 'dead' or sv.refusals_left > 0 or not_yet:
             if sv.refusals_left > 0:
                 sv.refusals_left -= 1
             self.injected += 1
@@ -447,6 +468,30 @@ def overlaps_close(rec, ops):
     return False
 
 
+def unexpected_timeout(d, w):
+    """the exception is _run()'s launch timeout although the refused server starts listening inside
+    the documented launch window -> returns that server, else None"""
+    import re
+    if d['func'] != '_run' or MARK not in d['msg'] or d['type'] in ('InjectedLaunchFailure', 'InjectedRefusal'):
+        return None
+    m = re.search(r'launch #(\d+)', d['msg'])
+    if not m:
+        return None
+    for sv in w.servers:
+        if sv.ordinal == int(m.group(1)) and sv.listen_delay is not None and sv.good:
+            return sv
+    return None
+
+
+def timeout_violation(d, w, who):
+    sv = unexpected_timeout(d, w)
+    return ('launch-timeout-inside-launch-window',
+            '%s got "%s" at remote.py:%s `%s` although the launched server starts listening %.1f s (virtual) after its launch, '
+            'inside the %.0f s launch window (virtual clock now %.2f s after launch)' % (
+                who, d['msg'][:120], d['lineno'], d['line'], sv.listen_delay, LAUNCH_WINDOW, w.sched.clock - sv.launched_at),
+            {'exc': d, 'listen_delay': sv.listen_delay})
+
+
 def judge(config, s, w):
     """Returns (list of (mech, what, extra), observations dict)."""
     out = []
@@ -480,7 +525,9 @@ def judge(config, s, w):
             continue
         if t.kind == 'starter':
             d = describe_exc(t.exc)
-            if d['injected']:
+            if unexpected_timeout(d, w) is not None:
+                out.append(timeout_violation(d, w, 'the background starter thread'))
+            elif d['injected']:
                 obs['starter_ended_with_injected_failure'] += 1
             else:
                 out.append(('starter-exception:%s@%s' % (d['type'], d['func'] or 'outside-remote'),
@@ -495,6 +542,10 @@ def judge(config, s, w):
         ov = overlaps_close(rec, w.ops)
         e = rec['exc']
         if e is not None:
+            if unexpected_timeout(e, w) is not None:
+                out.append(timeout_violation(e, w, 'a %s of thread %d (script %s)' % (
+                    {'P': 'prepare()', 'C': 'call', 'X': 'close()'}[rec['op']], rec['thread'], config['scripts'][rec['thread']])))
+                continue
             if e['injected']:
                 seen_injected = True
                 obs['ops_failed_with_injected_launch_failure'] += 1
@@ -588,6 +639,12 @@ def explore_config(part, config, how, seed, reported):
         part.hist('preemptions_per_run', s.preemptions)
         part.hist('popen_calls_hist', '%s|%s:%d' % ('with-close' if any('X' in x for x in config['scripts']) else 'no-close', config['variant'], len(w.launch_log)))
         part.hist('servers_started_per_run', len(w.servers))
+        if config['variant'].startswith('listen-'):
+            part.count('schedules_with_a_virtual_time_listen_delay')
+            sv0 = w.servers[0] if w.servers else None
+            if sv0 is not None and sv0.listen_delay is not None:
+                part.hist('listen_delay_outcome(T: connected | timeout expected | never tried)',
+                          '%s: %s' % (sv0.listen_delay, 'connected' if sv0.connected else ('timeout' if not sv0.good else 'not connected')))
         part.hist('steps_per_run(bucket of 20)', s.steps // 20 * 20)
         for t in s.threads:
             if t.kind == 'starter':
@@ -1185,6 +1242,8 @@ def _multisets3(a):
 
 
 VAR_COST = {'none': 1.0, 'popen-raise': 1.3, 'popen-raise2': 1.6, 'refuse2': 3.0, 'timeout': 3.0, 'timeout-exact': 6.0}
+for _t in LISTEN_INSIDE + LISTEN_BEYOND:
+    VAR_COST['listen-%s' % _t] = 2.0 + min(_t, 5.0)
 
 
 def build_jobs(run):
@@ -1286,6 +1345,31 @@ def build_jobs(run):
         batch.append((cfg(scripts, v, 'full'), {'kind': 'random', 'n': perf, 'steps': 250, 'max_steps': 20000}))
     for ch in core.chunks(batch, 4):
         jobs.append((400 if q else 4000, ch))
+    # ---- launch window in VIRTUAL time: the launched server starts listening T s after its launch ----
+    # (T inside the repository's own 5 s window: the connect must succeed, one launch, no exception;
+    # T beyond it: the timeout is the expected outcome and the next call launches again)
+    listen = ['listen-%s' % t for t in LISTEN_INSIDE + LISTEN_BEYOND]
+    items = []
+    for s in NOCLOSE_SHORT + NOCLOSE_LONG + ['PCX', 'CXC']:
+        for v in listen:
+            items.append((cfg([s], v), {'kind': 'sleep', 'cap': cap}))
+    for chunk in core.chunks(items, 15):
+        jobs.append((1500, chunk))
+    for p in (['C', 'C'], ['P', 'C'], ['P', 'P'], ['C', 'CC'], ['P', 'CC']):
+        for v in listen:
+            sleep_job(p, v)
+    for p in (['PC', 'C'], ['PC', 'PC'], ['PC', 'P']):
+        for v in (listen[:2] if q else listen[:3]):
+            sleep_job(p, v)
+    lrng = run.rng('random-configs-listen')
+    batch = []
+    for i in range(run.pick(18, 120)):
+        n = lrng.choice((2, 3, 3))
+        scripts = [lrng.choice(all_nc) for _ in range(n)]
+        batch.append((cfg(scripts, lrng.choice(listen), lrng.choice(('reduced', 'reduced', 'instr'))),
+                      {'kind': 'random', 'n': run.pick(100, 600), 'steps': 150, 'max_steps': 12000}))
+    for ch in core.chunks(batch, 3):
+        jobs.append((500 if q else 3000, ch))
     # ---- instruction granularity: switch points between the bytecodes of one source line ----------
     # (attribute accesses to shared attributes and calls on visible lines; mode 'instr-full': every
     # instruction).  Same scripts, same oracle; sleep-set DFS where it is cheap, random/PCT otherwise.
@@ -1410,7 +1494,7 @@ def main(run):
              'interleavings (hash of the visible-step sequence) were executed, or a real scenario; distinct by configuration + exploration kind',
         require=('schedules', 'distinct_interleavings', 'calls_answered_own_reply', 'real_runs_judged', 'real_calls_answered',
                  'schedules_random_full', 'real_disconnects', 'real_launch_failures_surfaced',
-                 'real_client_processes_ended_normally', 'real_servers_gone_after_client_process_end',
+                 'schedules_with_a_virtual_time_listen_delay', 'real_client_processes_ended_normally', 'real_servers_gone_after_client_process_end',
                  'instruction_level_schedules', 'instruction_level_preemptions(mid-line)', 'schedules_sleep_instr',
                  'schedules_random_instr-full'),
         assumptions=[
@@ -1421,6 +1505,9 @@ def main(run):
             'reduced mode treats lines that touch no shared state (per AST of the current remote.py) as invisible; guarded by random schedules with every line visible',
             'the sleep-set reduction relies on per-step access sets (static per line + dynamic for lock/thread/clock/fakes); cross-checked against plain DFS on all 1-client and two 2-client configurations',
             'calls/closes that overlap in time with another thread\'s close() are not judged (the property does not say what they must do); wrong-caller replies are counted, not judged',
+            'launch window: %.0f s, the constant of the unchanged supp/remote.py (connect retries until time.time() - start > 5); a server that starts '
+            'listening less than that after its launch (virtual clock: fake sleep advances it by exactly the requested amount) must get connected - '
+            'the launch timeout is then a violation, beyond the window it is the expected outcome' % LAUNCH_WINDOW,
             'launch-count rule: a launch while a connectable server of the same client is alive (launched, not ended) is a violation; launches after injected launch failures or after close() are expected',
             'monitor (b): 30 s watchdog for child exit (server polls once a second)'],
         exhaustive=bool(run.counters.get('configs_1_or_2_clients_exhausted')) and not run.counters.get('configs_1_or_2_clients_hit_schedule_cap'))
